@@ -31,6 +31,11 @@ claimed = {
    text="Unique high-entropy secrets (login password with URL- and regexp-significant characters, PAN-OS API key, NSX session token) are used in real drc/do-approve runs (approve and compare, -L logging on) against the simulators, on success and with one fault at a drawn position (all kinds, concentrated on login and first requests); every file under basedir, the policy log directory and the -L directory plus stdout/stderr must be free of every secret. The SSH simulator does not echo input typed at a password prompt. Known finding F6 (API key in transport error URL, pinned by the suite) is set aside by signature.",
    note="Trusted: simulators; the credentials file itself is excluded from the scan.",
    ref="DESIGN.md §3 C17"),
+ "C18": dict(
+   level="exploration", technique="property-based testing (rapid): generated (IPv4, IPv6, raw) parts whose every line carries a tag encoding part and action; the effective target is observed as the script of 'drc MINIMAL_DEVICE NETSPOC'; order/completeness clauses of the property checked on the tag sequence; NSX via the store model and an independent reference merge",
+   text="For ASA, IOS, Linux and PAN-OS small parts with overlapping ACL/chain/rulebase names are generated (with and without APPEND sections, parts without any permit line, empty parts, trailing deny blocks of length 0-3); each line carries a unique tag for its part and action, and the emitted creation script must contain every tag exactly once, keep the order inside each part, put raw lines before all Netspoc lines and APPEND lines after the last Netspoc permitting line and before the trailing deny/drop lines. For NSX the union of all parts is compared by content. Negative raw entries (unknown command, unbound or doubly bound ACL, tunnel-group-map, redefined chain, r<NUM> rule name) must end in an error or a warning, never in silent loss.",
+   note="Trusted: the tag extraction from the tool's own creation script for an empty device (no device model needed); PAN-OS: documented behaviour is 'appended', the generator keeps the Netspoc rulebase free of trailing deny rules so that both readings coincide.",
+   ref="DESIGN.md §3 C18"),
  "C19": dict(
    level="fault_enumeration", technique="property-based testing (rapid) over histories of commits/runs/kills around the unmodified newpolicy.sh plus enumeration of every kill position (DEBUG-trap injection via BASH_ENV)",
    text="Histories of good/bad commits, undisturbed runs, runs killed at the k-th simple command, simultaneous invocations and manual removal of 'current' are executed against the unmodified bin/newpolicy.sh with a local bare repository and stub compiler; after every action the link/number/compile invariants are checked and a final undisturbed run must promote the newest compiling revision. Thorough enumerates every kill position of a run. Known root cause F9/F9b (stale next/) is set aside by signature.",
